@@ -443,7 +443,18 @@ func (c *ctx) genBytes() []byte {
 	if err != nil || len(b) == 0 {
 		return c.bytesN(12 + c.rnd.Intn(10))
 	}
-	switch c.rnd.Intn(9) {
+	switch c.rnd.Intn(11) {
+	case 9: // the 16-bit field in front of the MIC (DevNonce, RJCount) := a boundary value, written here and not by the encoder
+		if len(b) >= 7 {
+			x := c.pick(0x7fff, 0x8000, 0xffff, 0, 0x00ff, 0x0100, 0x7ffe, 0xfffe)
+			b[len(b)-6], b[len(b)-5] = byte(x), byte(x>>8)
+		}
+	case 10: // any 16-bit window := a boundary value
+		if len(b) >= 3 {
+			i := 1 + c.rnd.Intn(len(b)-2)
+			x := c.pick(0x7fff, 0x8000, 0xffff, 0, 0x00ff, 0x0100)
+			b[i], b[i+1] = byte(x), byte(x>>8)
+		}
 	case 0: // as is
 	case 1: // truncate
 		b = b[:c.rnd.Intn(len(b)+1)]
